@@ -400,3 +400,73 @@ Proof.
   - eapply regs_after; eauto.
     eapply regs_ok_mono; [apply (a_regs _ _ _ Hi)|apply F|apply F|apply G'].
 Qed.
+
+(* ---------------------------------------------------------------- add_question *)
+
+Lemma closed_all_Lq b lo c h L : closed b lo c h L -> forall s, L s <-> Lq L c s.
+Proof.
+  intros H s. unfold Lq. split; [|tauto]. intros Hs. split; auto.
+  destruct (closed_bound _ _ _ _ _ _ H Hs). lia.
+Qed.
+
+Lemma step_question d g L n qt qc : AInv d g L -> wf_name n -> step_ok d g (OAddQuestion n qt qc).
+Proof.
+  intros Hi Hwf. unfold step_ok.
+  pose proof (step_good_all d (OAddQuestion n qt qc) (a_n _ _ _ Hi)) as G.
+  cbn [step] in *. unfold add_question in *.
+  destruct (w_section (d_w d)); try (simpl in G |- *; exists L; apply AInv_obs; auto; fail).
+  destruct (checked_add16 (w_qd (d_w d)) 1) as [nq|]; [|simpl in G |- *; exists L; apply AInv_obs; auto].
+  unfold with_rollback in *.
+  pose proof (write_unhinted_L _ n (d_w d) L (a_ni _ _ _ Hi) Hwf) as P1.
+  destruct (write_unhinted_name n (d_w d)) as [[pr w1]|[e w1]|]; simpl in P1; cbn [bind] in *.
+  3:{ exact P1. }
+  2:{ simpl in G |- *. exists L. apply AInv_obs; auto. }
+  destruct P1 as [W [Hsz [_ [L1 [G1 [Hi1 HpL]]]]]].
+  pose proof W as [X [Sd _]].
+  pose proof (anch_new _ _ _ _ _ _ L1 W HpL) as Apr.
+  rewrite <- (x_len _ _ _ X) in Hi1.
+  destruct (anch3_ext _ _ _ L1 _ _ _ (a_an _ _ _ Hi) X Sd (proj1 G1)) as [B1 [B2 B3]].
+  set (gq' := if (w_qd w1 =? 0)%N then Some n else g_q g).
+  set (w1' := if (w_qd w1 =? 0)%N then set_qname w1 pr else w1) in *.
+  assert (Hi1' : NInv w1' (length (w_buf w1)) L1).
+  { unfold w1'. destruct (w_qd w1 =? 0)%N; auto. apply NInv_set_qname; auto. eapply anch_prior_ok; eauto. }
+  assert (A1 : anch3 w1' L1 gq' (g_o g) (g_r g)).
+  { unfold w1', gq'. destruct (w_qd w1 =? 0)%N; split; auto. }
+  assert (E1 : w_cursor w1' = w_cursor w1 /\ w_buf w1' = w_buf w1 /\ w_tsig w1' = w_tsig w1 /\ w_avail w1' = w_avail w1)
+    by (unfold w1'; destruct (w_qd w1 =? 0)%N; auto).
+  destruct E1 as [Ec1 [Eb1 [Et1 Ea1]]].
+  clearbody w1'.
+  destruct (try_push_u16 qt w1') as [[u2 w2]|[e w2]|] eqn:E2; cbn [bind] in *.
+  3:{ destruct Hi1' as [[N1 N2] _ _ _ _ _ _]. eapply try_push_no_panic; eauto. }
+  2:{ simpl in G |- *. exists L. apply AInv_obs; auto. }
+  destruct (push_step _ _ _ _ _ _ _ _ _ None [] E2 Hi1' A1 I) as [Hi2 [A2 [_ [Hc2 [X2 Q2]]]]].
+  destruct (try_push_u16 qc w2) as [[u3 w3]|[e w3]|] eqn:E3; cbn [bind] in *.
+  3:{ destruct Hi2 as [[N1 N2] _ _ _ _ _ _]. eapply try_push_no_panic; eauto. }
+  2:{ simpl in G |- *. exists L. apply AInv_obs; auto. }
+  destruct (push_step _ _ _ _ _ _ _ _ _ None [] E3 Hi2 A2 I) as [Hi3 [A3 [_ [Hc3 [X3 Q3]]]]].
+  simpl in G |- *.
+  assert (Hl3 : length (w_buf w3) = length (w_buf w1)).
+  { rewrite (x_len _ _ _ X3), (x_len _ _ _ X2), Eb1. reflexivity. }
+  rewrite <- Hl3 in Hi3.
+  pose proof (ni_closed _ _ _ Hi3) as Hcl3.
+  pose proof (closed_all_Lq _ _ _ _ _ Hcl3) as Eqv.
+  assert (Ag : agree (w_cursor (d_w d)) (w_buf (d_w d)) (w_buf w3)).
+  { pose proof (x_cur _ _ _ X2). pose proof (x_cur _ _ _ X).
+    eapply agree_trans; [apply X|]. rewrite <- Eb1.
+    eapply agree_trans; [eapply agree_le; [apply X2|lia]|]. eapply agree_le; [apply X3|]. lia. }
+  assert (Hcm : w_cursor (d_w d) <= w_cursor w3).
+  { pose proof (x_cur _ _ _ X3). pose proof (x_cur _ _ _ X2). pose proof (x_cur _ _ _ X). lia. }
+  assert (Hfin : AInv (mkD (set_rr_start (set_counts w3 nq (w_an w3) (w_ns w3) (w_ar w3)) (w_cursor w3)) (d_regs d))
+                      (mkGn gq' (g_o g) (g_r g) (g_regs g)) L1).
+  { constructor; simpl; auto.
+    - destruct Hi3. constructor; auto.
+    - apply (closed_equiv _ _ _ _ L1 (Lq L1 (w_cursor w3)) Eqv). exact Hcl3.
+    - apply (decodable_sub _ _ L1); [intros s Hs; apply Eqv; exact Hs|apply Hi3].
+    - destruct A3 as [A31 _]. eapply anch_sub; [exact A31|].
+      intros p Ep. apply Eqv. destruct (A31 p Ep) as [m [_ [[K _] _]]]. exact K.
+    - eapply regs_ok_mono; [apply (a_regs _ _ _ Hi)|exact Ag|exact Hcm|apply G1].
+    - intros t Et. apply (a_ts _ _ _ Hi).
+      rewrite <- (x_tsig _ _ _ X), <- Et1, <- (x_tsig _ _ _ X2), <- (x_tsig _ _ _ X3). exact Et. }
+  exists L1. unfold gq' in Hfin. rewrite (x_qd _ _ _ X) in Hfin.
+  destruct (w_qd (d_w d) =? 0)%N; auto. eapply AInv_ghost_eq; eauto.
+Qed.
